@@ -1,0 +1,43 @@
+//go:build verif
+
+// Machine-checked contracts (comments only) for SDK archive extraction (C20);
+// read by /verif/govc. pathok(p, d): p lies lexically below Clean(d) or is
+// Clean(d) itself (spec and trusted path lemmas: /verif/specs/paths.smt2).
+// Every call that creates something in the file system must be preceded by a
+// proof that its path argument is confined to the destination; no other
+// file-system mutator may be called (effect allow-list).
+
+package crosscompile
+
+//@ func extractTarGz
+//@ props C20
+//@ effects os: Open, OpenFile, MkdirAll, File.Close
+//@ effects os/exec:
+//@ effects syscall:
+//@ effects io/ioutil:
+//@ at_call os.MkdirAll requires confined: pathok(strrank(path), strrank(dest))
+//@ at_call os.OpenFile requires confined: pathok(strrank(name), strrank(dest))
+//@ at_call os.Create requires confined: pathok(strrank(name), strrank(dest))
+//@ loop 1 invariant true: true
+//@ modifies everything
+
+//@ func extractZip$1
+//@ props C20
+//@ effects os: Create, MkdirAll, File.Close
+//@ effects os/exec:
+//@ effects syscall:
+//@ effects io/ioutil:
+//@ at_call os.MkdirAll requires confined: pathok(strrank(path), strrank(dest))
+//@ at_call os.OpenFile requires confined: pathok(strrank(name), strrank(dest))
+//@ at_call os.Create requires confined: pathok(strrank(name), strrank(dest))
+//@ requires file != nil
+//@ modifies nothing
+
+//@ func extractZip
+//@ props C20
+//@ effects os:
+//@ effects os/exec:
+//@ effects syscall:
+//@ effects io/ioutil:
+//@ loop 1 invariant range: -1 <= rangeindex && rangeindex < 1<<40
+//@ modifies everything
